@@ -2,6 +2,7 @@ package p13
 
 import (
 	"fmt"
+	"strconv"
 	"time"
 
 	"rare/pkg/aggregation"
@@ -109,6 +110,49 @@ func runAgg(c *run.Ctx, cs *Case) {
 			for _, g := range agg.Groups(s) {
 				got = append(got, string(g))
 			}
+		case "group-expr":
+			// `reduce --sort <expr>`: groups ordered by an expression over their accumulators. The order is a
+			// function of the aggregated data only: the same samples in another arrival order, with Groups()
+			// called at intermediate points (what a periodic render does), must end in the order a fresh
+			// aggregator gives that saw everything at once.
+			mk := func() *aggregation.AccumulatingGroup {
+				agg := aggregation.NewAccumulatingGroup(funclib.NewKeyBuilder())
+				if agg.AddGroupExpr("k", "{1}") != nil || agg.AddDataExpr("n", "{sumi {.} {2}}", "0") != nil || agg.SetSort("{n}") != nil {
+					return nil
+				}
+				return agg
+			}
+			s := sorting.ByContextual()
+			if cs.Spec == "contextual:reverse" {
+				s = sorting.Reverse(s)
+			}
+			ref, agg := mk(), mk()
+			if ref == nil || agg == nil {
+				c.Inconclusive("cannot build the accumulating group")
+				return
+			}
+			for _, a := range arr {
+				ref.Sample(a.k + "\x00" + strconv.FormatInt(a.v, 10))
+			}
+			want = want[:0]
+			for _, g := range ref.Groups(s) {
+				want = append(want, string(g))
+			}
+			looks := map[int]bool{}
+			for n := r.Range(1, 3); n > 0 && len(p) > 1; n-- {
+				looks[1+r.Intn(len(p)-1)] = true
+			}
+			for n, i := range p {
+				if looks[n] {
+					agg.Groups(s) // an intermediate render
+					c.Count("intermediate_sorts", 1)
+				}
+				agg.Sample(arr[i].k + "\x00" + strconv.FormatInt(arr[i].v, 10))
+			}
+			for _, g := range agg.Groups(s) {
+				got = append(got, string(g))
+			}
+			limit = len(want)
 		default:
 			c.Inconclusive("unknown agg target " + cs.Target)
 			return
@@ -123,7 +167,7 @@ func runAgg(c *run.Ctx, cs *Case) {
 	}
 }
 
-var aggTargets = []string{"counter", "subkey", "table-rows", "table-cols", "group"}
+var aggTargets = []string{"counter", "subkey", "table-rows", "table-cols", "group", "group-expr"}
 
 func aggs(c *run.Ctx) {
 	N := c.N(2500, 50000)
@@ -135,7 +179,7 @@ func aggs(c *run.Ctx) {
 		target := aggTargets[i%len(aggTargets)]
 		mode := modes[(i/len(aggTargets))%len(modes)]
 		var spec string
-		if target == "group" {
+		if target == "group" || target == "group-expr" {
 			mode = "contextual"
 			spec = []string{"contextual", "contextual:reverse"}[r.Intn(2)]
 		} else {
@@ -143,7 +187,7 @@ func aggs(c *run.Ctx) {
 			spec = append(append([]string{}, asc...), desc...)[r.Intn(4)]
 		}
 		keys, _ := genKeys(c, r, mode, 30)
-		if target == "group" {
+		if target == "group" || target == "group-expr" {
 			// an empty group key means "no group"
 			var ks []string
 			for _, k := range keys {
